@@ -101,7 +101,7 @@ def long_case(i, tier):
 
 SUBCHECKS = [
     SubCheck("normal", evaluate, strategy=s_normal, examples=(3000, 16000), shards=(8, 16),
-             floors={"deg3_met": 60, "deg1_met": 60, "table_at_deg2or3": 60}, rule=RULE),
+             floors={"deg3_met": 60, "deg1_met": 60, "table_at_deg2or3": 60, "large_k": 80}, rule=RULE),
     SubCheck("fast", evaluate, strategy=s_fast, examples=(2000, 12000), shards=(6, 16),
              floors={"deg1_met": 30, "deg4_met": 30, "deg2_met": 30}, rule=RULE),
     SubCheck("with_check", evaluate, strategy=s_check, examples=(1500, 8000), shards=(4, 16),
